@@ -540,7 +540,11 @@ impl WatchDispatcher {
                     match result {
                         Ok(event) => self.dispatch_event(event).await,
                         Err(broadcast::error::RecvError::Lagged(n)) => {
-                            warn!("WatchDispatcher lagged {} events (slow watchers)", n);
+                            // Events were overwritten in the global queue before we saw them. We cannot
+                            // tell which watchers they were for, so end every stream with CANCELED
+                            // (clients re-sync and re-register) instead of leaving a silent gap.
+                            warn!("WatchDispatcher lagged {} events, cancelling all watchers", n);
+                            self.cancel_all_watchers();
                         }
                         Err(broadcast::error::RecvError::Closed) => {
                             debug!("Broadcast channel closed, WatchDispatcher stopping");
@@ -555,6 +559,30 @@ impl WatchDispatcher {
             }
         }
         debug!("WatchDispatcher stopped");
+    }
+
+    /// Send CANCELED to every registered watcher and unregister it.
+    ///
+    /// The slot reserved by `watcher_buffer_size + 1` guarantees the sentinel fits.
+    fn cancel_all_watchers(&self) {
+        for map in [&self.registry.exact, &self.registry.prefix] {
+            let keys: Vec<Bytes> = map.iter().map(|e| e.key().clone()).collect();
+            for key in keys {
+                let ids: Vec<u64> = match map.get(&key) {
+                    Some(watchers) => watchers
+                        .iter()
+                        .map(|w| {
+                            let _ = w.sender.try_send(crate::watch::make_cancel_event(key.clone()));
+                            w.id
+                        })
+                        .collect(),
+                    None => continue,
+                };
+                for id in ids {
+                    self.registry.unregister(id, &key);
+                }
+            }
+        }
     }
 
     /// Broadcast a synthetic Progress event to ALL active watchers regardless of key.
